@@ -8,7 +8,7 @@ use crate::util::*;
 use serde_json::{json, Value};
 use std::sync::{Arc, Mutex};
 
-const ALPHABET: [u32; 11] = [0x61, 0xe9, 0x65e5, 0x1f600, 0x20, 0xa0, 0x1680, 0x41, 0xff21, 0x301, 0x200d];
+const ALPHABET: [u32; 13] = [0x61, 0xe9, 0x65e5, 0x1f600, 0x20, 0xa0, 0x1680, 0x41, 0xff21, 0x301, 0x200d, 0x09, 0x2028];
 
 fn positions(n: usize) -> Vec<usize> {
     let mut v: Vec<usize> = (0..n + 3).collect();
@@ -104,6 +104,24 @@ pub fn main(args: &[String]) {
                 calls += all_ops(&s, &panics);
                 strings += 1;
                 idx += threads as u64;
+            }
+            // runs of consecutive code points (all digits of a script, a stretch of an alphabet, ...), alone and
+            // followed by a few characters that make contextual rules hold
+            let starts: [u32; 22] = [0x30, 0x41, 0x61, 0x660, 0x6f0, 0x966, 0x9e6, 0xe50, 0x5d0, 0x621, 0x3b1, 0x3041, 0x30a1, 0x30f5, 0x4e00,
+                                     0xff10, 0xff21, 0x1d7ce, 0x10400, 0x2000, 0x200b, 0xb0];
+            let tails: [&str; 6] = ["", "\u{30fb}\u{30ab}", "\u{65e5}\u{30fb}", "l\u{b7}l", "\u{915}\u{94d}\u{200d}", "\u{5d0}"];
+            let mut ri = t;
+            while ri < starts.len() * 12 * tails.len() {
+                let st = starts[ri % starts.len()];
+                let n = 5 + (ri / starts.len()) % 12;
+                let tail = tails[(ri / (starts.len() * 12)) % tails.len()];
+                let mut s: String = (0..n as u32).filter_map(|k| char::from_u32(st + k)).collect();
+                s.push_str(tail);
+                calls += all_ops(&s, &panics);
+                let rev: String = tail.chars().chain(s[..s.len() - tail.len()].chars()).collect();
+                calls += all_ops(&rev, &panics);
+                strings += 2;
+                ri += threads;
             }
             // random part
             let mut rng = Rng::new(seed * 1000 + t as u64);
